@@ -313,7 +313,9 @@ def frame_obligations(c, ctx, I, bound, old):
                 if k not in cur.f:
                     ctx.oblige("frame:%s" % p, False, "field deleted")
                     continue
-                if isinstance(cv, SObj) and isinstance(ov, SObj):
+                if hasattr(cv, "dom") and hasattr(ov, "dom") and hasattr(cv, "val"):
+                    ctx.oblige("frame:%s" % p, z3.And(cv.dom == ov.dom, cv.val == ov.val))
+                elif isinstance(cv, SObj) and isinstance(ov, SObj):
                     walk(p, cv, ov)
                 elif isinstance(cv, dict) and isinstance(ov, dict) or (isinstance(cv, list) and isinstance(ov, list)):
                     walk(p, cv, ov)
@@ -352,6 +354,9 @@ def frame_obligations(c, ctx, I, bound, old):
                 leaf(path + "[%d]" % i, a, b)
 
     def leaf(p, cv, ov):
+        if hasattr(cv, "dom") and hasattr(ov, "dom") and hasattr(cv, "val"):
+            ctx.oblige("frame:%s" % p, z3.And(cv.dom == ov.dom, cv.val == ov.val))
+            return
         if isinstance(cv, (SObj, SList, dict, list, tuple)) and not (isinstance(cv, tuple) and not any(isinstance(x, (SObj, dict, list)) for x in cv)):
             walk(p, cv, ov)
             return
